@@ -367,35 +367,63 @@ func translatePrepareTimeBased(f *ast.File) (string, error) {
 	}
 	t := &tr{rename: map[string]string{"*" + latest: "l", timeExpr: "time"}, locals: map[string]bool{}}
 
-	// 1. early return
-	s0, ok := next().(*ast.IfStmt)
-	if !ok || s0.Init != nil || s0.Else != nil || len(s0.Body.List) != 1 {
-		return bad("first statement is not the early return")
+	// 1./2. the early return and the local lastTriggeredTime, in either of two equivalent shapes:
+	//   (a) if latest != nil && E { return nil, nil }; last := c; if latest != nil { last = X }
+	//   (b) last := c; if latest != nil { if E { return nil, nil }; last = X }
+	// In both, E is evaluated only when latest != nil and before anything else happens.
+	isNilNil := func(s ast.Stmt) bool {
+		r, ok := s.(*ast.ReturnStmt)
+		return ok && len(r.Results) == 2 && isIdent(r.Results[0], "nil") && isIdent(r.Results[1], "nil")
 	}
-	c0, ok := s0.Cond.(*ast.BinaryExpr)
-	if !ok || c0.Op != token.LAND || !notNil(c0.X) {
-		return bad("early return condition is not `latestTriggeredTime != nil && ...`")
+	var earlyCond ast.Expr
+	first := next()
+	if s0, ok := first.(*ast.IfStmt); ok { // shape (a)
+		if s0.Init != nil || s0.Else != nil || len(s0.Body.List) != 1 {
+			return bad("first statement is not the early return")
+		}
+		c0, ok := s0.Cond.(*ast.BinaryExpr)
+		if !ok || c0.Op != token.LAND || !notNil(c0.X) {
+			return bad("early return condition is not `latestTriggeredTime != nil && ...`")
+		}
+		if !isNilNil(s0.Body.List[0]) {
+			return bad("early return does not return nil, nil")
+		}
+		earlyCond = c0.Y
+		first = next()
 	}
-	if r, ok := s0.Body.List[0].(*ast.ReturnStmt); !ok || len(r.Results) != 2 || !isIdent(r.Results[0], "nil") || !isIdent(r.Results[1], "nil") {
-		return bad("early return does not return nil, nil")
-	}
-	fmt.Fprintf(&sb, "(* prepareTimeBasedTriggers: no query when this holds (latest = *kpr.latestTriggeredTime, None = nil) *)\nDefinition gen_early_return (latest : option Z) (time : Z) : bool :=\n  match latest with Some l => %s | None => false end.\n\n", t.expr(c0.Y))
-
-	// 2. lastTriggeredTime := <lit>; if latest != nil { lastTriggeredTime = <e> }
-	s1, ok := next().(*ast.AssignStmt)
+	s1, ok := first.(*ast.AssignStmt)
 	if !ok || s1.Tok != token.DEFINE || len(s1.Lhs) != 1 || len(s1.Rhs) != 1 {
 		return bad("expected `lastTriggeredTime := 0`")
 	}
 	lastVar := exprText(s1.Lhs[0])
+	if _, lit := s1.Rhs[0].(*ast.BasicLit); !lit {
+		return bad("%s is not initialised with a literal", lastVar)
+	}
 	initV := t.expr(s1.Rhs[0])
 	s2, ok := next().(*ast.IfStmt)
-	if !ok || s2.Init != nil || s2.Else != nil || !notNil(s2.Cond) || len(s2.Body.List) != 1 {
+	if !ok || s2.Init != nil || s2.Else != nil || !notNil(s2.Cond) {
 		return bad("expected `if latestTriggeredTime != nil { %s = ... }`", lastVar)
 	}
-	a2, ok := s2.Body.List[0].(*ast.AssignStmt)
+	body2 := s2.Body.List
+	if earlyCond == nil { // shape (b): the early return is the first statement of this block
+		if len(body2) != 2 {
+			return bad("no early return found")
+		}
+		e, ok := body2[0].(*ast.IfStmt)
+		if !ok || e.Init != nil || e.Else != nil || len(e.Body.List) != 1 || !isNilNil(e.Body.List[0]) {
+			return bad("no early return found")
+		}
+		earlyCond = e.Cond
+		body2 = body2[1:]
+	}
+	if len(body2) != 1 {
+		return bad("expected `if latestTriggeredTime != nil { %s = ... }`", lastVar)
+	}
+	a2, ok := body2[0].(*ast.AssignStmt)
 	if !ok || a2.Tok != token.ASSIGN || len(a2.Lhs) != 1 || exprText(a2.Lhs[0]) != lastVar || len(a2.Rhs) != 1 {
 		return bad("expected an assignment to %s", lastVar)
 	}
+	fmt.Fprintf(&sb, "(* prepareTimeBasedTriggers: no query when this holds (latest = *kpr.latestTriggeredTime, None = nil) *)\nDefinition gen_early_return (latest : option Z) (time : Z) : bool :=\n  match latest with Some l => %s | None => false end.\n\n", t.expr(earlyCond))
 	fmt.Fprintf(&sb, "(* the local lastTriggeredTime (an int) *)\nDefinition gen_last_triggered (latest : option Z) : Z :=\n  match latest with Some l => %s | None => %s end.\n\n", t.expr(a2.Rhs[0]), initV)
 
 	// 3. kpr.latestTriggeredTime = &block.Header.Time
@@ -460,8 +488,8 @@ func translatePrepareTimeBased(f *ast.File) (string, error) {
 	}
 	ev := exprText(loop.Value)
 	lb := loop.Body.List
-	if len(lb) != 3 {
-		return bad("loop body has %d statements, expected 3", len(lb))
+	if len(lb) != 3 && len(lb) != 4 {
+		return bad("loop body has %d statements, expected 3 or 4", len(lb))
 	}
 	l0, ok := lb[0].(*ast.AssignStmt)
 	if !ok || l0.Tok != token.DEFINE || len(l0.Lhs) != 2 || !isIdent(l0.Lhs[1], "err") || len(l0.Rhs) != 1 {
@@ -476,16 +504,28 @@ func translatePrepareTimeBased(f *ast.File) (string, error) {
 	if !ok || l1.Init != nil || l1.Else != nil || !isErrNotNil(l1.Cond) || len(l1.Body.List) != 1 || !isErrReturn(l1.Body.List[0]) {
 		return bad("loop: verdict not followed by the error idiom")
 	}
+	// `if C { res = append(res, ev) }`  or  `if !C { continue }; res = append(res, ev)`
 	l2, ok := lb[2].(*ast.IfStmt)
 	if !ok || l2.Init != nil || l2.Else != nil || len(l2.Body.List) != 1 {
 		return bad("loop: expected `if trigger { append }`")
 	}
+	keepCond := l2.Cond
+	appendStmt := l2.Body.List[0]
+	if len(lb) == 4 {
+		br, isBr := l2.Body.List[0].(*ast.BranchStmt)
+		neg, isNeg := l2.Cond.(*ast.UnaryExpr)
+		if !isBr || br.Tok != token.CONTINUE || br.Label != nil || !isNeg || neg.Op != token.NOT {
+			return bad("loop: expected `if !trigger { continue }` before the append")
+		}
+		keepCond = neg.X
+		appendStmt = lb[3]
+	}
 	tl := &tr{rename: map[string]string{}, locals: map[string]bool{verdict: true}}
-	cond := tl.expr(l2.Cond)
+	cond := tl.expr(keepCond)
 	if tl.err != nil {
 		return bad("loop: %v", tl.err)
 	}
-	ap, ok := l2.Body.List[0].(*ast.AssignStmt)
+	ap, ok := appendStmt.(*ast.AssignStmt)
 	if !ok || ap.Tok != token.ASSIGN || len(ap.Lhs) != 1 || exprText(ap.Lhs[0]) != res || len(ap.Rhs) != 1 || exprText(ap.Rhs[0]) != "append("+res+","+ev+")" {
 		return bad("loop: the row is not appended to %s", res)
 	}
